@@ -269,7 +269,38 @@ def c18(run):
         g.hist(q(run, 150, 2000))
     return C.execute(run, gen, monitor=M.mon_flags)
 
+def backends(run):
+    """backend half of C19: the real Linux and ESP-IDF backends from the working tree against an
+    interposed ioctl() / stub spi_device_polling_transmit()"""
+    d = C.scratch()
+    H = os.path.join(C.ROOT, 'harness')
+    ren = lambda p: ['-Dsx127x_spi_read_registers=%s_read_registers' % p, '-Dsx127x_spi_read_buffer=%s_read_buffer' % p,
+                     '-Dsx127x_spi_write_register=%s_write_register' % p, '-Dsx127x_spi_write_buffer=%s_write_buffer' % p]
+    base = ['gcc', '-std=gnu99', '-O1', '-g', '-fsanitize=address,undefined', '-fno-sanitize-recover=all', '-w', '-I', os.path.join(C.REPO, 'include')]
+    cmds = [
+        base + ['-Dioctl=sx_fake_ioctl', '-include', 'arpa/inet.h'] + ren('lin') + ['-c', os.path.join(C.REPO, 'src', 'sx127x_linux_spi.c'), '-o', os.path.join(d, 'lin.o')],
+        base + ['-I', os.path.join(H, 'esp_stub')] + ren('esp') + ['-c', os.path.join(C.REPO, 'src', 'sx127x_esp_spi.c'), '-o', os.path.join(d, 'esp.o')],
+        base + ['-I', os.path.join(H, 'esp_stub'), '-I', H, os.path.join(H, 'backends.c'), os.path.join(d, 'lin.o'), os.path.join(d, 'esp.o'), '-o', os.path.join(d, 'bk')],
+    ]
+    for c in cmds:
+        r = C.sh(c)
+        if r.returncode != 0:
+            run.violation('bundled SPI backend does not build against the test stubs: ' + r.stderr[-300:], ['# backend build'])
+            return
+    r = C.sh([os.path.join(d, 'bk')], env=dict(os.environ, ASAN_OPTIONS='detect_leaks=0'))
+    lines = r.stdout.splitlines()
+    m = re.search(r'checks=(\d+) violations=(\d+)', r.stdout)
+    if m:
+        run.cov['monitor_checks'] += int(m.group(1))
+        run.cov['backend_checks'] = int(m.group(1))
+    bad = [l for l in lines if l.startswith('!C19')]
+    if r.returncode != 0 and not bad:
+        bad = ['!C19 backend test aborted: ' + (r.stderr.strip().splitlines() or ['exit %d' % r.returncode])[0]]
+    if bad:
+        run.violation(bad[0][1:], ['# backend test (harness/backends.c)'] + bad[:40], {'count': len(bad)})
+
 def c19(run):
+    backends(run)
     def gen(g):
         g.hist(q(run, 300, 4000)); g.two_byte(); g.fsk_rx(q(run, 60, 600)); g.fsk_tx(q(run, 60, 600)); g.lora_rx(q(run, 40, 400)); g.lora_tx(q(run, 40, 400))
         g.exh_setters(q(run, [0x00], [0, 0xff]))
